@@ -9,6 +9,38 @@
 #include <utility>
 #include <vector>
 
+#ifdef LIBCUCKOO_VERIF
+// Verification hook: a scheduling/observation point at every synchronisation
+// event (lock request/acquire/release, accesses to the table-size,
+// resize-generation and lock-list variables). The includer provides the
+// function; with LIBCUCKOO_VERIF undefined the macro expands to nothing.
+extern "C" void libcuckoo_verif_hook(int kind, const void *obj,
+                                     unsigned long a, unsigned long b);
+#define LIBCUCKOO_VERIF_HOOK(kind, obj, a, b)                                 \
+  libcuckoo_verif_hook(kind, obj, a, b)
+enum {
+  LIBCUCKOO_VH_LOCKREQ = 1,
+  LIBCUCKOO_VH_LOCKED = 2,
+  LIBCUCKOO_VH_UNLOCK = 3,
+  LIBCUCKOO_VH_TRYLOCK = 4,
+  LIBCUCKOO_VH_LD_HP = 5,
+  LIBCUCKOO_VH_ST_HP = 6,
+  LIBCUCKOO_VH_LD_RC = 7,
+  LIBCUCKOO_VH_FA_RC = 8,
+  LIBCUCKOO_VH_CURLOCKS = 9,
+  LIBCUCKOO_VH_ALL_FIRST = 10,
+  LIBCUCKOO_VH_ALL_NEXT = 11,
+  LIBCUCKOO_VH_EMPLACE = 12,
+  LIBCUCKOO_VH_ST_NREM = 13,
+  LIBCUCKOO_VH_FS_NREM = 14,
+  LIBCUCKOO_VH_ALL_UNLOCK_END = 15
+};
+#else
+#define LIBCUCKOO_VERIF_HOOK(kind, obj, a, b)                                 \
+  do {                                                                         \
+  } while (0)
+#endif
+
 namespace libcuckoo {
 
 #if LIBCUCKOO_DEBUG
